@@ -174,7 +174,7 @@ let dispatch fn a =
   | "spec_national_accept" | "spec_national_accept_after" ->
     let s = x_clean (t 0) in
     string_of_bool' (s_iso_ok s && s_published_ok (x_iban_cc s) (x_iban_bban s))
-  | "spec_lookup_empty_code" | "spec_components_national" | "spec_no_foreign_exception" | "spec_only_rejects" | "spec_generate" | "spec_generate_national" | "spec_rebuild" | "spec_random" | "spec_value_laws" | "spec_copies" -> "OK"
+  | "spec_unlisted_pair" | "spec_lookup_empty_code" | "spec_components_national" | "spec_no_foreign_exception" | "spec_only_rejects" | "spec_generate" | "spec_generate_national" | "spec_rebuild" | "spec_random" | "spec_value_laws" | "spec_copies" -> "OK"
   | "spec_published" -> string_of_bool' (s_published_ok (t 0) (t 1))
   | "generated_published" -> if a.(0) = "-" then "SKIP" else string_of_bool' (s_published_ok (t 0) (t 1))
   | "algo_validate" -> out string_of_bool' (x_algo_validate (t 0) (texts_of_string a.(1)) (t 2))
